@@ -344,12 +344,12 @@ func (r *rig) observe() *obs {
 	if r.base == 0 {
 		txs, _ := p.GetTxPool(false, 0)
 		for _, e := range txs {
-			o.Pool = append(o.Pool, ent{r.u.name(e.Tx), statefulHeight(e.Attrs)})
+			o.Pool = append(o.Pool, ent{r.u.name(e.Tx), statefulHeight(e.Attrs), hasStateless(e.Attrs)})
 		}
 	} else {
 		for _, tx := range r.u.txs {
 			if st := p.GetTxStatus(tx.Hash()); st != nil {
-				o.Pool = append(o.Pool, ent{r.u.name(tx), statefulHeight(st.Attrs)})
+				o.Pool = append(o.Pool, ent{r.u.name(tx), statefulHeight(st.Attrs), hasStateless(st.Attrs)})
 			}
 		}
 	}
